@@ -85,6 +85,9 @@ def ref(s):
         end = parse_humanized(token)
         if end < start:
             raise ValueError("reversed")
+        typ, token = next(tokens, (None, None))
+        if typ is not None and token.strip():
+            raise ValueError("anything but blanks after the end coordinate")
         return start, end
 
     parts = s.split(":")
@@ -93,6 +96,8 @@ def ref(s):
         raise ValueError("empty name")
     if len(parts) < 2:
         return (chrom, None, None)
+    if len(parts) > 2:
+        raise ValueError("a second colon")
     start, end = _expect(_tokenize(parts[1]))
     return (chrom, start, end)
 '''
